@@ -27,6 +27,16 @@ let q_of_string (s : string) : q =
     let a = int_of_string (String.sub s 0 i) and b = int_of_string (String.sub s (i + 1) (String.length s - i - 1)) in
     if b <= 0 then failwith "bad denominator";
     { qnum = z_of_int a; qden = pos_of_int b }
+let uq_of_string (s : string) : n * positive =
+  match String.index_opt s '/' with
+  | None -> failwith ("bad rational " ^ s)
+  | Some i ->
+    let a = int_of_string (String.sub s 0 i) and b = int_of_string (String.sub s (i + 1) (String.length s - i - 1)) in
+    if b <= 0 || a < 0 then failwith "bad unsigned rational";
+    (n_of_int a, pos_of_int b)
+let pq_of_string (s : string) : positive * positive =
+  let (a, b) = uq_of_string s in
+  (match a with N0 -> failwith "frequency must be positive" | Npos p -> (p, b))
 let rec gcd a b = if b = 0 then a else gcd b (a mod b)
 (* reduced fraction, like boost::rational prints it *)
 let string_of_q (x : q) : string =
@@ -49,7 +59,7 @@ let parse_step (t : string) : step =
   let rest = String.sub t 1 (String.length t - 1) in
   match t.[0] with
   | 'K' -> SWaitClk (clk_of_char t.[1], phase_of_char t.[2])
-  | 'T' -> SWaitFor (q_of_string rest)
+  | 'T' -> SWaitFor (uq_of_string rest)
   | 'H' -> SWaitChange (mask_of_int (int_of_string rest))
   | 'S' -> SWaitStable
   | 'R' -> SRead (sig_of_int (int_of_string rest))
@@ -63,7 +73,7 @@ let parse_step (t : string) : step =
 
 let string_of_wake = function
   | WkClk (c, ph) -> Printf.sprintf "K%c%c" (char_of_clk c) (char_of_phase ph)
-  | WkFor q -> "T" ^ raw_of_q q
+  | WkFor (n, d) -> Printf.sprintf "T%d/%d" (int_of_n n) (int_of_pos d)
   | WkChange m -> Printf.sprintf "H%d" (int_of_mask m)
   | WkStable -> "S"
   | WkJoin k -> Printf.sprintf "J%d" (int_of_nat k)
@@ -105,14 +115,14 @@ let () =
   let default_tb = if Array.length Sys.argv > 3 then Sys.argv.(3) else "" in
   let ic = open_in Sys.argv.(2) in
   let fuel = nat_of_int 20000 in
-  let id = ref "" and fa = ref (q_of_string "1/1") and fb = ref (q_of_string "1/1") and two = ref false
+  let id = ref "" and fa = ref (pq_of_string "1/1") and fb = ref (pq_of_string "1/1") and two = ref false
   and procs = ref [] and subs = ref [] and until = ref (q_of_string "0/1") and tb = ref default_tb in
   (try
     while true do
       let line = input_line ic in
       match split line with
       | "case" :: i :: _ -> id := i; procs := []; subs := []; two := false; tb := default_tb
-      | "clk" :: a :: b :: _ -> fa := q_of_string a; two := (b <> "-"); if !two then fb := q_of_string b
+      | "clk" :: a :: b :: _ -> fa := pq_of_string a; two := (b <> "-"); if !two then fb := pq_of_string b
       | "p" :: toks -> procs := List.map parse_step toks :: !procs
       | "s" :: toks -> subs := List.map parse_step toks :: !subs
       | "tb" :: b :: _ -> tb := b
